@@ -550,7 +550,9 @@ class C03Check:
             return dict(violations=[], inconclusive="witness-not-confirmed", faults={}, probes={"witness_mismatch": 1}, digest="x",
                         shape="x", nontrivial=False, sim_seconds=0.0, steps=0,
                         descriptor=dict(guards=case.guards, w=[hex(x) for x in case.w], got=wit))
-        args = R.make_args(solver_threads=threads, cache_solver=cache, storage_layout=layout,
+        # --early-exit: the first valid counterexample shuts the executor down, killing solvers that are still printing
+        early_exit = ch.chance(0.3, "sw.early")
+        args = R.make_args(solver_threads=threads, cache_solver=cache, storage_layout=layout, early_exit=early_exit,
                            panic_error_codes=set(PANIC_SET), default_bytes_lengths=list(BYTES_LENGTHS))
 
         def main():
